@@ -4,6 +4,7 @@ mod dump;
 mod props;
 mod reqmodel;
 mod rt;
+mod sess;
 
 fn arg_val(args: &[String], name: &str) -> Option<String> {
     args.iter().position(|a| a == name).and_then(|i| args.get(i + 1).cloned())
